@@ -14,11 +14,11 @@ def plan(tier):
                     # the partial-load code depends on the remainder modulo the word size and on which tweakey word is partial
                     sel = [blk, 2 * blk] + ([3 * blk] if maxz == 3 else [])
                     for base_ in ([blk, 2 * blk] if maxz == 3 else [blk]):
-                        sel += [base_ + 1, base_ + 2, base_ + 3, base_ + 4, base_ + 5, base_ + blk // 2, base_ + blk - 1]
+                        sel += [base_ + 1, base_ + 3, base_ + 4, base_ + blk - 1]
                     lens_ok = sorted(set(l for l in sel if blk <= l <= maxz * blk))
                     lens_bad = [0, 1, blk - 1, maxz * blk + 1, 3 * blk + 16]
                 else:
-                    lens_ok = [blk, blk + 1, 2 * blk - 1, 2 * blk] + ([2 * blk + 1, 3 * blk - 1, 3 * blk] if maxz == 3 else [])
+                    lens_ok = [blk, blk + 1, 2 * blk] + ([3 * blk - 1, 3 * blk] if maxz == 3 else [])
                     lens_bad = [0, blk - 1, maxz * blk + 1, 3 * blk + 16]
             def llunits():
                 u = [cipher_ll]
@@ -51,7 +51,7 @@ def plan(tier):
         queries=qs, level='model_checking', pre=[pre_model_selftest] + ([pre_ll_diff] if any(q.ll for q in qs) else []),
         functions=['skinny{64,128}_set_key', 'skinny{64,128}_set_tweaked_key', 'skinny{64,128}_set_key_inner', 'skinny{64,128}_set_tk1/2/3 (full and partial loads)',
                    'skinny{64,128}_ctr_set_key / _ctr_set_tweaked_key (dispatcher + generic back end)', 'skinny{64,128}_parallel_ecb_set_key', 'mantis_set_key (see C14 for Mantis argument classes)'],
-        bounds={'key lengths': 'thorough: each length 0 .. 3*blk+16 individually for every entry point; quick: primary sizes, every remainder class of the partial-load loops (+1..+5, +blk/2, +blk-1 after each primary size) and the boundary rejects; one query per entry point with the length a symbolic unsigned outside the range',
+        bounds={'key lengths': 'thorough: each length 0 .. 3*blk+16 individually for every entry point; quick: primary sizes, the remainder classes of the partial-load loops (+1, +3, +4, +blk-1 after each primary size) and the boundary rejects; one query per entry point with the length a symbolic unsigned outside the range',
                 'key bytes': 'all symbolic', 'prior object content': 'arbitrary bytes', 'back ends': 'dispatcher + generic back end here; vec back ends delegate to the same functions, covered by C06 set_key step'},
         outside=['gcc code generation'],
         assumptions=BASE_ASSUMPTIONS + [MODEL_ASSUMPTION, 'in-between lengths are decided natively for SKINNY_64BIT=0 and through clang-14 -O1 IR (ll2c) for the shipped 64-bit path, because CBMC 6.11 mis-simplifies the union write in the 64-bit partial load'],
